@@ -15,13 +15,15 @@ from common import (gen_raster_net, gen_forest, mk_raster, mk_vector, canon_idx,
 OPS = ["downstream", "upstream_sum", "fillnodata(up)", "fillnodata(down,min)", "fillnodata(down,max)",
        "fillnodata(down,sum)", "_window", "main_upstream", "moving_average", "moving_average(weights)",
        "moving_average(restrict_strord)", "moving_median", "moving_median(restrict_strord)",
-       "stream_distance(cell)", "stream_distance(m)", "stream_distance(mask)", "hand", "floodplains",
+       "stream_distance(cell)", "stream_distance(m)", "stream_distance(mask)", "hand", "floodplains", "smooth_rivlen",
        "errors"]
 RULE = ("random loop-free networks on rasters <= 56 cells (quick) / <= 400 (thorough): D8 networks from random "
         "DEMs and arbitrary forests, both classes (FlwdirRaster, Flwdir); fields = small random integers with "
         "20-80% nodata cells (nodata in {-9999,-1,0}), windows n = 0..4, how in {min,max,sum}, weights incl. 0 "
         "and negative, all four (restrict_strord, strord) combinations, masks random / by upstream area, "
-        "unit='m' on 3x4 cells, thresholds uparea**b with b in {0.3,0.5,1,2} (b=1: exact ties). non-trivial = "
+        "unit='m' on 3x4 cells, thresholds uparea**b with b in {0.3,0.5,1,2} (b=1: exact ties); smooth_rivlen: "
+        "max_window 0..10, lengths = multiples of lcm(window sizes)^d from few levels (ties) or many, also on long "
+        "chains; regression cases for the filled-flag fix of fill 'down'. non-trivial = "
         ">= 2 valid cells, >= 1 confluence, path length >= 3; distinct = SHA-1 of (op, network, all inputs)")
 HOW = {"max": 0, "min": 1, "sum": 2}
 HDEN = 2 ** 30
@@ -144,7 +146,7 @@ def case_downstream(ctx, rng, N):
 
 def case_upstream_sum(ctx, rng, N):
     nd = rng.choice([-9999, -1, 0])
-    p_nd = rng.choice([0.0, 0.0, 0.15, 0.4])
+    p_nd = rng.choice([0.0, 0.15, 0.3, 0.5])
     dt = rng.choice([np.int32, np.float64])
     data = gen_field(rng, N.n, nd, p_nd)
     out = N.flw.upstream_sum(arr(N, data, dt), mv=nd)
@@ -161,8 +163,15 @@ def case_upstream_sum(ctx, rng, N):
         # the property fixes the value where neither the cell nor its downstream cell is empty
         only = [i for i in range(N.n) if a["fixed"][i] == 1 and N.ds[i] != N.n]
         cmp_eq(fs, impl, a, "upstream_sum", only=only)
+        # full domain (missing values included): the closed form proved in `upstream_sum_exact`
+        if impl != a["exact"]:
+            bad = [i for i in range(N.n) if impl[i] != a["exact"][i]]
+            fs.append({"kind": "model", "what": f"upstream_sum: implementation != closed form (flag + later inflows) at cells {bad[:6]}",
+                       "impl": impl, "exact": a["exact"]})
         return fs
     ctx.count("op:upstream_sum" + ("(nodata)" if nd in data else ""))
+    ctx.count("upstream_sum:cells-with-empty-downstream-cell",
+              sum(1 for i in range(N.n) if N.ds[i] not in (N.n, i) and data[i] != nd and data[N.ds[i]] == nd))
     ctx.add({"op": "upstream_sum", **N.base, "data": data, "mv": nd},
             [("c14_upstream_sum", {"ds": N.ds, "data": data, "nodata": nd})], judge, nontrivial=N.nontriv)
 
@@ -415,6 +424,89 @@ def case_floodplains(ctx, rng, N):
             nontrivial=N.nontriv and any(u >= upa_min for u in upa))
 
 
+def make_chain(rng):
+    """a long main stem with a few one-cell tributaries (vector network): windows reach their full width"""
+    m = rng.randint(6, 14)
+    ds = [max(i - 1, 0) for i in range(m)]
+    for _ in range(rng.randint(0, 3)):
+        ds.append(rng.randint(0, m - 1))
+    N = Net()
+    N.ds, N.n, N.shape, N.fam, N.raster = ds, len(ds), (len(ds),), "chain", False
+    N.flw = mk_vector(ds)
+    N.nontriv = len(ds) > m
+    N.seq = canon_idx(N.flw.idxs_seq, N.n)
+    N.base = {"ds": ds, "shape": [len(ds)], "class": "Flwdir"}
+    return N
+
+
+def case_smooth_rivlen(ctx, rng, N):
+    if rng.random() < 0.4:
+        N = make_chain(rng)
+        ctx.count("smooth_rivlen:chain-network")
+    mw = rng.choice([0, 2, 3, 4, 5, 6, 6, 7, 7, 10])
+    n = mw // 2
+    # values are multiples of K = lcm(window sizes)^d so that the means written back stay integers
+    # (then every float operation of the implementation is exact); the driver reports when they do not
+    K = 2520 ** 2 if mw >= 8 else 60 ** 3
+    nd = -9999
+    upa = upstream_counts(N.ds)
+    thr = rng.choice([0, 1, 2])
+    # half of the cases draw from few levels, so that window means tie with each other and with
+    # min_rivlen (the strict comparisons `>` of the kernel are then decisive)
+    ties = rng.random() < 0.5
+    hi = rng.choice([3, 4]) if ties else 20
+    riv = [nd if (N.ds[i] == N.n or upa[i] <= thr or rng.random() < 0.1) else K * rng.randint(1, hi) for i in range(N.n)]
+    min_len = K * (rng.randint(2, 3) if ties else rng.randint(2, 16))
+    ctx.count("smooth_rivlen:few-levels(ties)" if ties else "smooth_rivlen:many-levels")
+    usmain = canon_idx(N.flw.idxs_us_main, N.n)
+    out = N.flw.smooth_rivlen(arr(N, riv, np.float64), min_rivlen=float(min_len), max_window=mw, nodata=float(nd))
+    impl = [Fraction(float(x)) for x in np.asarray(out).ravel().tolist()]
+    changed = sum(1 for i in range(N.n) if impl[i] != riv[i])
+    ctx.count("op:smooth_rivlen")
+    ctx.count(f"smooth_rivlen:max_window={mw}")
+    ctx.count("smooth_rivlen:cells-changed", changed)
+
+    def judge(ans):
+        e = drv_err(ans)
+        if e:
+            return e
+        a = ans[0]
+        fs = []
+        model = [Fraction(p, q) for p, q in zip(a["model.num"], a["model.den"])]
+        exact = a["exact"] == [1]
+        ctx.count("smooth_rivlen:exact" if exact else "smooth_rivlen:inexact(tolerance)")
+
+        def same(x, y):
+            return x == y if exact else abs(x - y) <= abs(y) * Fraction(1, 10 ** 9)
+        bad = [i for i in range(N.n) if not same(impl[i], model[i])]
+        if bad:
+            fs.append({"kind": "model", "what": f"smooth_rivlen(max_window={mw}): implementation != Lean model at cells {bad[:6]}",
+                       "impl": [float(x) for x in impl], "model": [float(x) for x in model]})
+        # the natural properties (theorems about the model), evaluated on the implementation's output
+        bad = [i for i in range(N.n) if riv[i] == nd and impl[i] != nd]
+        if bad:
+            fs.append({"kind": "spec", "what": f"smooth_rivlen: nodata cells changed {bad[:6]}"})
+        bad = [i for i in range(N.n) if a["touch"][i] == 0 and impl[i] != riv[i]]
+        if bad:
+            fs.append({"kind": "spec", "what": f"smooth_rivlen: cells outside every window changed {bad[:6]}"})
+        if n <= 1 and changed:
+            fs.append({"kind": "spec", "what": "smooth_rivlen: max_window < 4 must be the identity"})
+        if a["nodup"] != [1]:
+            fs.append({"kind": "spec", "what": "smooth_rivlen: a window has duplicate or out-of-range cells (hypothesis of smooth_rivlen_total)"})
+        else:
+            s_in = sum(Fraction(v) for v in riv if v != nd)
+            s_out = sum(impl[i] for i in range(N.n) if riv[i] != nd)
+            if not same(s_out, s_in):
+                fs.append({"kind": "spec", "what": f"smooth_rivlen: total length not conserved ({float(s_in)} -> {float(s_out)})"})
+        if a["usmain_ok"] != [1]:
+            fs.append({"kind": "spec", "what": "idxs_us_main: entry is not an inflow cell"})
+        return fs
+    ctx.add({"op": "smooth_rivlen", **N.base, "rivlen": riv, "min_rivlen": min_len, "max_window": mw, "nodata": nd},
+            [("c14_smooth_rivlen", {"ds": N.ds, "usmain": usmain, "rivlen": riv, "min_rivlen": min_len,
+                                    "max_window": mw, "nodata": nd})], judge,
+            nontrivial=N.nontriv and changed > 0)
+
+
 def case_errors(ctx, rng, N):
     ctx.count("op:errors")
     ctx.evaluations += 1
@@ -485,7 +577,8 @@ def run(ctx):
     for k in range(nnet):
         N = make_net(ctx, rng, max_cells)
         ctx.count("family:" + N.fam)
-        menu = ["downstream", "upstream_sum", "fill", "fill", "window", "average", "average", "median"]
+        menu = ["downstream", "upstream_sum", "upstream_sum", "fill", "fill", "window", "average", "average",
+                "median", "smooth", "smooth"]
         if N.raster:
             menu += ["distance", "distance", "hand", "floodplains", "floodplains"]
         picks = rng.sample(menu, 5)
@@ -504,6 +597,8 @@ def run(ctx):
                 case_moving(ctx, rng, N, median=False)
             elif p == "median":
                 case_moving(ctx, rng, N, median=True)
+            elif p == "smooth":
+                case_smooth_rivlen(ctx, rng, N)
             elif p == "distance":
                 case_stream_distance(ctx, rng, N)
             elif p == "hand":
@@ -550,6 +645,7 @@ def exhaustive_tiny(ctx):
         case_stream_distance(ctx, rng, N)
         case_hand(ctx, rng, N)
         case_floodplains(ctx, rng, N)
+        case_smooth_rivlen(ctx, rng, N)
         cnt += 1
         if len(ctx.cases) > 400:
             ctx.flush()
